@@ -259,15 +259,22 @@ def read_str_coding(source):
     # as defined by PEP-263 (https://www.python.org/dev/peps/pep-0263/)
     CODING_LINE_PATTERN = b"^[ \t\f]*#.*?coding[:=][ \t]*([-_.a-zA-Z0-9]+)"
 
+    # a declaration on the second line counts only below a blank or comment line
+    BLANK_LINE_PATTERN = b"^[ \t\f]*(?:[#\r\n]|$)"
+
     if type(source) == bytes:
         newline = b"\n"
         CODING_LINE_PATTERN = re.compile(CODING_LINE_PATTERN)
+        BLANK_LINE_PATTERN = re.compile(BLANK_LINE_PATTERN)
     else:
         newline = "\n"
         CODING_LINE_PATTERN = re.compile(CODING_LINE_PATTERN.decode("ascii"))
+        BLANK_LINE_PATTERN = re.compile(BLANK_LINE_PATTERN.decode("ascii"))
     for line in source.split(newline, 2)[:2]:
         if re.match(CODING_LINE_PATTERN, line):
             return _find_coding(line)
+        if not re.match(BLANK_LINE_PATTERN, line):
+            return
     else:
         return
 
